@@ -9,11 +9,13 @@ import (
 
 	"github.com/cnotch/ipchub/av/format/rtp"
 	"github.com/cnotch/ipchub/media"
+	"github.com/cnotch/ipchub/provider/route"
 	sflv "github.com/cnotch/ipchub/service/flv"
 	"github.com/cnotch/xlog"
 
 	"verif/harness/oracle"
 	"verif/harness/sim"
+	"verif/harness/simnet"
 )
 
 func init() {
@@ -35,6 +37,24 @@ func init() {
 		},
 		RequiredProbes: []string{"c07.fault-injected", "c07.liveness-checked", "c07.malformed-input-comes-first", "c07.parameter-sets-in-band-only", "c07.ts-keyframe-parameter-sets-checked"},
 	})
+	Register(&Def{
+		Prop: "C07", Name: "camera-garbage", Level: "fault_enumeration",
+		Build:        func(tier string) sim.Scenario { return buildC07src(tier, true) },
+		Cfg:          sim.RunConfig{Grace: 2 * time.Minute, Horizon: 2 * time.Hour, StepCap: 400000},
+		RunsQuick:    2500,
+		RunsThorough: 200000,
+		Real: []string{"media.GetOrCreate + route.Match + pull stream factory", "service/rtsp PullClient (handshake, playStream: interleaved frames of the camera through receive/ReadPacket, keep-alive)", "media.Stream + H264Cache", "rtp.Demuxer + depacketizers",
+			"flv.Muxer + HTTP-FLV handler", "mpegts.Muxer + hls.SegmentGenerator + Playlist", "sdp.ParseMetadata and the parameter-set decoders (hostile SDP in the camera's DESCRIBE answer)"},
+		Stub: []string{"the camera (scripted fake RTSP server behind simnet.Dial)", "TCP (sim.Conn)", "HTTP response writer of the FLV viewer", "RTP consumer is a recording media.Consumer"},
+		Rule: "the pusher-garbage scenario with a pulled camera as the source: the stream is created on demand through a route, the fake camera answers the handshake (its DESCRIBE answer carries the clean, the parameter-set-free or a hostile SDP) and then sends one clean GOP, " +
+			"1-3 malformed interleaved frames (same fault kinds x templates x offsets), then four clean GOPs 6 s of media time apart while it keeps answering keep-alive requests. Oracle: the pull connection and its stream survive the malformed input, " +
+			"every later packet reaches the RTP consumer, every later NAL/AAC frame reaches the FLV viewer, HLS carries later frames, the second stream and session are untouched; after a hostile SDP the same path can be pulled afresh from a clean camera. " +
+			"evaluations = runs; distinct = distinct (fault kind, template, offset class, event-log hash)",
+		Assumptions: []string{
+			"the interleaved framing itself ('$', channel, length) stays intact",
+		},
+		RequiredProbes: []string{"c07.fault-injected", "c07.liveness-checked", "c07.malformed-input-comes-first", "c07.parameter-sets-in-band-only", "c07.camera-hostile-sdp-survived"},
+	})
 }
 
 type c07View struct {
@@ -51,12 +71,27 @@ func (r *c07View) Write(b []byte) (int, error) {
 	return r.buf.Write(b)
 }
 
-func buildC07(tier string) sim.Scenario {
+func buildC07(tier string) sim.Scenario { return buildC07src(tier, false) }
+
+// c07Source is where the media bytes come from: a publisher's record session or a pulled camera's connection.
+type c07Source struct {
+	what       string
+	write      func([]byte) (int, error)
+	peerClosed func() bool
+	close      func()
+}
+
+func buildC07src(tier string, fromCamera bool) sim.Scenario {
 	var sw *svcWorld
+	var farm *camFarm
 	main := func(w *sim.World) {
 		w.PanicClass = "C07/panic"
 		tp := w.Tape
-		sw = newSvcWorld(w, false, tp.Bool(), nil, nil)
+		var routes []*route.Route
+		if fromCamera {
+			routes = []*route.Route{{Pattern: "/live/p", URL: "rtsp://cam7.local/ch1"}}
+		}
+		sw = newSvcWorld(w, false, tp.Bool(), nil, routes)
 		hostileSDP := tp.OneIn(6)
 		var faultNames []string
 		tsCorrupted := false // a fault changed the RTP timestamp field of an otherwise well-formed video packet
@@ -69,10 +104,9 @@ func buildC07(tier string) sim.Scenario {
 		other.StartConsumeNoGopCache(otherRec, media.RTPPacket, "other")
 		sess2 := sw.rtspConnect("sess2", 64<<10)
 
-		pusher := sw.rtspConnect("pusher", 1<<20)
 		base := "rtsp://10.9.0.1:554/live/p"
 		sdp := sdpH264AAC
-		// a publisher whose SDP names no parameter sets: they come in-band only, so a damaged one must not keep
+		// a source whose SDP names no parameter sets: they come in-band only, so a damaged one must not keep
 		// the stream from ever using the well-formed ones that follow
 		noSprop := !hostileSDP && tp.OneIn(4)
 		if noSprop {
@@ -91,46 +125,87 @@ func buildC07(tier string) sim.Scenario {
 			w.Fault("hostile-sdp")
 			w.Probe("c07.fault-injected")
 		}
-		m, err := pusher.do("ANNOUNCE", base, map[string]string{"Content-Type": "application/sdp"}, sdp)
-		if err != nil {
-			w.Fail("C07/session-lost", "ANNOUNCE with %s SDP: no response (%v)", map[bool]string{true: "a hostile", false: "the"}[hostileSDP], err)
-			return
+		var src c07Source
+		var stream *media.Stream
+		oneFrame := func() []byte {
+			var b bytes.Buffer
+			mkRTP(rtp.ChannelVideo, 96, 1, 1000, true, oracle.MakeNAL(oracle.H264, 5, 1, 50)).Write(&b, []int{0, 1, 2, 3})
+			return b.Bytes()
 		}
-		if hostileSDP {
-			// whatever the answer, the server lives: the second session still works and a clean publisher can follow
-			if m.Status/100 == 2 {
-				pusher.do("SETUP", base+"/streamid=0", map[string]string{"Transport": "RTP/AVP/TCP;unicast;interleaved=0-1;mode=record"}, "")
-				pusher.do("RECORD", base, nil, "")
-				var b bytes.Buffer
-				mkRTP(rtp.ChannelVideo, 96, 1, 1000, true, oracle.MakeNAL(oracle.H264, 5, 1, 50)).Write(&b, []int{0, 1, 2, 3})
-				pusher.c.Write(b.Bytes())
-				w.Sleep(time.Second)
-			}
-			pusher.c.Close()
-			pusher = sw.rtspConnect("pusher2", 1<<20)
-			m, err = pusher.do("ANNOUNCE", base, map[string]string{"Content-Type": "application/sdp"}, sdpH264AAC)
-			if err != nil || m.Status != 200 {
-				w.Fail("C07/server-disturbed", "after a hostile SDP on another connection a clean ANNOUNCE got %v %+v", err, m)
+		if fromCamera {
+			// the stream is pulled on demand: the camera's DESCRIBE answer carries the SDP
+			farm = &camFarm{w: w, plans: []camPlan{{step: -1, sdp: sdp}, {step: -1, sdp: sdpH264AAC}}}
+			simnet.Dial = farm.dial
+			stream = media.GetOrCreate("/live/p")
+			if hostileSDP {
+				// whatever the outcome, the server lives: the second session still works and the path can be pulled afresh
+				if len(farm.cams) > 0 {
+					if stream != nil {
+						farm.cams[0].conn.Write(oneFrame())
+						w.Sleep(time.Second)
+					}
+					farm.cams[0].conn.Close()
+				}
+				w.Sleep(5 * time.Second)
+				if s := media.Get("/live/p"); s != nil {
+					w.Fail("C07/server-disturbed", "5 s after the camera with the hostile SDP hung up its stream is still registered")
+					return
+				}
+				stream = media.GetOrCreate("/live/p")
+				if stream == nil {
+					w.Fail("C07/server-disturbed", "after a camera with a hostile SDP the same path cannot be pulled from a clean camera (dials so far: %v)", farm.dials)
+					return
+				}
+				w.Probe("c07.camera-hostile-sdp-survived")
+			} else if stream == nil {
+				w.Fail("C07/harness", "pull from a well-behaved camera failed")
 				return
 			}
-		} else if m.Status != 200 {
-			w.Fail("C07/harness", "clean ANNOUNCE answered %d", m.Status)
-			return
-		}
-		for _, st := range []struct{ tr, ch string }{{"streamid=0", "0-1"}, {"streamid=1", "2-3"}} {
-			m, err := pusher.do("SETUP", base+"/"+st.tr, map[string]string{"Transport": "RTP/AVP/TCP;unicast;interleaved=" + st.ch + ";mode=record"}, "")
-			if err != nil || m.Status != 200 {
-				w.Fail("C07/harness", "SETUP %s: %v %+v", st.tr, err, m)
+			cam := farm.cams[len(farm.cams)-1]
+			w.Sleep(200 * time.Millisecond) // the pull registers its stream just after the requester is answered
+			src = c07Source{what: "camera", write: cam.conn.Write, peerClosed: cam.conn.PeerClosed, close: func() { cam.conn.Close() }}
+		} else {
+			pusher := sw.rtspConnect("pusher", 1<<20)
+			m, err := pusher.do("ANNOUNCE", base, map[string]string{"Content-Type": "application/sdp"}, sdp)
+			if err != nil {
+				w.Fail("C07/session-lost", "ANNOUNCE with %s SDP: no response (%v)", map[bool]string{true: "a hostile", false: "the"}[hostileSDP], err)
 				return
 			}
+			if hostileSDP {
+				// whatever the answer, the server lives: the second session still works and a clean publisher can follow
+				if m.Status/100 == 2 {
+					pusher.do("SETUP", base+"/streamid=0", map[string]string{"Transport": "RTP/AVP/TCP;unicast;interleaved=0-1;mode=record"}, "")
+					pusher.do("RECORD", base, nil, "")
+					pusher.c.Write(oneFrame())
+					w.Sleep(time.Second)
+				}
+				pusher.c.Close()
+				pusher = sw.rtspConnect("pusher2", 1<<20)
+				m, err = pusher.do("ANNOUNCE", base, map[string]string{"Content-Type": "application/sdp"}, sdpH264AAC)
+				if err != nil || m.Status != 200 {
+					w.Fail("C07/server-disturbed", "after a hostile SDP on another connection a clean ANNOUNCE got %v %+v", err, m)
+					return
+				}
+			} else if m.Status != 200 {
+				w.Fail("C07/harness", "clean ANNOUNCE answered %d", m.Status)
+				return
+			}
+			for _, st := range []struct{ tr, ch string }{{"streamid=0", "0-1"}, {"streamid=1", "2-3"}} {
+				m, err := pusher.do("SETUP", base+"/"+st.tr, map[string]string{"Transport": "RTP/AVP/TCP;unicast;interleaved=" + st.ch + ";mode=record"}, "")
+				if err != nil || m.Status != 200 {
+					w.Fail("C07/harness", "SETUP %s: %v %+v", st.tr, err, m)
+					return
+				}
+			}
+			if m, err := pusher.do("RECORD", base, nil, ""); err != nil || m.Status != 200 {
+				w.Fail("C07/harness", "RECORD: %v %+v", err, m)
+				return
+			}
+			stream = media.Get("/live/p")
+			src = c07Source{what: "publisher", write: pusher.c.Write, peerClosed: pusher.c.PeerClosed, close: func() { pusher.c.Close() }}
 		}
-		if m, err := pusher.do("RECORD", base, nil, ""); err != nil || m.Status != 200 {
-			w.Fail("C07/harness", "RECORD: %v %+v", err, m)
-			return
-		}
-		stream := media.Get("/live/p")
 		if stream == nil {
-			w.Fail("C07/harness", "stream not registered after RECORD")
+			w.Fail("C07/harness", "stream not registered after RECORD / pull")
 			return
 		}
 		rec := &recConsumer{w: w, name: "rtpRec"}
@@ -192,14 +267,14 @@ func buildC07(tier string) sim.Scenario {
 				}
 				_ = unit
 				sent = append(sent, sp)
-				pusher.c.Write(frame(p))
+				src.write(frame(p))
 				if pk.Marker {
 					au := blob(40000+id, 20+tp.Choose(200))
 					id++
 					ap := mkRTP(rtp.ChannelAudio, 97, aseq, ts/90*44+uint32(aseq)*1024, true, oracle.PackAAC([][]byte{au}))
 					aseq++
 					sent = append(sent, sentPk{p: ap, aus: [][]byte{au}, phase: phase})
-					pusher.c.Write(frame(ap))
+					src.write(frame(ap))
 				}
 			}
 		}
@@ -280,8 +355,8 @@ func buildC07(tier string) sim.Scenario {
 				w.Fault(name[:minInt(len(name), 8)])
 				w.Logf("fault %s (%d bytes on the wire)", name, len(raw))
 				w.Probe("c07.fault-injected")
-				if _, err := pusher.c.Write(raw); err != nil {
-					w.Fail("C07/session-lost", "the publisher's connection was closed by the server (write failed: %v) after fault %s", err, name)
+				if _, err := src.write(raw); err != nil {
+					w.Fail("C07/session-lost", "the %s's connection was closed by the server (write failed: %v) after fault %s", src.what, err, name)
 					return
 				}
 				w.Sleep(200 * time.Millisecond)
@@ -298,11 +373,11 @@ func buildC07(tier string) sim.Scenario {
 
 		// ---- oracle ----
 		if media.Get("/live/p") != stream || stream.VerifStatus() != media.StreamOK {
-			w.Fail("C07/session-lost", "the publisher's stream is gone after malformed input %v (registered=%v status=%d): the session was torn down by media bytes", faultNames, media.Get("/live/p") == stream, stream.VerifStatus())
+			w.Fail("C07/session-lost", "the %s's stream is gone after malformed input %v (registered=%v status=%d): the session was torn down by media bytes", src.what, faultNames, media.Get("/live/p") == stream, stream.VerifStatus())
 			return
 		}
-		if pusher.c.PeerClosed() {
-			w.Fail("C07/session-lost", "the server closed the publisher's connection after malformed input")
+		if src.peerClosed() {
+			w.Fail("C07/session-lost", "the server closed the %s's connection after malformed input %v", src.what, faultNames)
 			return
 		}
 		// (b) RTP relay of everything sent after the faults
@@ -443,10 +518,13 @@ func buildC07(tier string) sim.Scenario {
 			w.Fail("C07/other-disturbed", "the second session's OPTIONS: %v %+v", err, m)
 			return
 		}
-		pusher.c.Close()
+		src.close()
 		<-viewDone
 	}
 	cleanup := func(w *sim.World) {
+		if farm != nil {
+			farm.closeAll()
+		}
 		sw.teardown()
 	}
 	return sim.Scenario{Main: main, Cleanup: cleanup}
